@@ -18,11 +18,12 @@ import (
 )
 
 type Ctx struct {
-	P     *load.Program
-	R     *report.Run
-	Tier  string
-	mu    sync.Mutex
-	namer *absint.Analyzer
+	P        *load.Program
+	R        *report.Run
+	Tier     string
+	mu       sync.Mutex
+	namer    *absint.Analyzer
+	maxSteps int
 }
 
 // Check is a property driver.
@@ -147,11 +148,14 @@ func pkgOf(f *ssa.Function) *ssa.Package {
 func (c *Ctx) NewE1(home *ssa.Package, opaqueCross bool) *absint.Analyzer {
 	a := absint.New(c.P)
 	a.Impls = c.Impls
-	a.Deadline = time.Now().Add(90 * time.Second)
+	// The deciding budget is the deterministic instruction count (MaxSteps, per entry). The wall-clock deadline is
+	// only a safety net against a hang: a verdict must not depend on how loaded the machine is.
+	a.Deadline = time.Now().Add(30 * time.Minute)
 	if c.Tier == "thorough" {
 		a.K = 96
 		a.MaxDepth = 18
-		a.Deadline = time.Now().Add(240 * time.Second)
+		a.MaxSteps = 12_000_000
+		a.Deadline = time.Now().Add(60 * time.Minute)
 	}
 	if opaqueCross {
 		a.Opaque = func(f *ssa.Function) bool {
@@ -230,6 +234,12 @@ func (c *Ctx) RunE1(entries []*ssa.Function, opaqueCross bool, pre Pre) []*E1Res
 			}()
 			r.Undecided = append(r.Undecided, a.Undecided...)
 			r.Wall = time.Since(t0).Seconds()
+			c.mu.Lock()
+			if a.StepsUsed > c.maxSteps {
+				c.maxSteps = a.StepsUsed
+				c.R.Notes["e1_max_steps_of_an_entry"] = fmt.Sprintf("%d of %d (%s)", a.StepsUsed, a.MaxSteps, shortFn(fn))
+			}
+			c.mu.Unlock()
 			res[i] = r
 		}(i, fn)
 	}
@@ -297,6 +307,7 @@ func (c *Ctx) E1Rules() {
 	r["E1.make"] = "make sizes are non-negative and cap >= len"
 	r["E1.panic"] = "no explicit panic is reachable"
 	r["E1.typeassert"] = "type assertions without comma-ok cannot fail"
+	r["E1.progress"] = "a loop whose guard compares a loop-carried integer with a loop-invariant bound (for i < n, for i > 0) moves that integer towards the bound by at least 1 on every path back to its head (no input makes the loop spin); loops with other guards get no obligation"
 	r["E1.undecided"] = "the analyser finished within its budgets and met no unsupported construct"
 }
 
